@@ -82,6 +82,12 @@ def sh(cmd, timeout=600, cwd=None, env=None, input=None, check=False):
     e = dict(os.environ)
     if env:
         e.update(env)
+    # time limits are stated for an idle 16-core machine; on a loaded one (other checks, builds) they are stretched in
+    # proportion, so that a slow run is never mistaken for a hang of the code under test
+    try:
+        timeout = timeout * max(1.0, os.getloadavg()[0] / max(1, os.cpu_count() or 1))
+    except OSError:
+        pass
     try:
         p = subprocess.run(cmd, shell=shell, cwd=cwd, env=e, input=input, timeout=timeout,
                            stdout=subprocess.PIPE, stderr=subprocess.PIPE)
